@@ -1,2 +1,205 @@
-(* placeholder while the model is being validated *)
-From Asynkit Require Import Base.Prelude Coro.Tree Coro.AsyncGen Coro.GenObj.
+(* C06, part 2: the two objects are in lock step on every body tree and every
+   consumer history of the domain (by induction on the history, from the
+   one-step simulation of GenObjSim.v); ayield from nested awaits. *)
+From Asynkit Require Import Base.Prelude Base.Obs Coro.Tree Coro.Native Coro.TreeProofs
+  Coro.AsyncGen Coro.GenObj Coro.GenObjSim.
+Open Scope Z_scope.
+
+(* ------------------------------------------------------ the main theorem *)
+Lemma equiv_from : forall h a p, inv a p -> ok_history h -> agree (a, p) (proj a p, p) h.
+Proof.
+  induction h as [|op t IH]; intros a p Hinv Hh; [exact I|]. cbn [agree].
+  unfold ok_history in Hh. simpl in Hh. apply andb_prop in Hh. destruct Hh as [Hop Ht].
+  pose proof (step_sim a p op Hinv Hop) as Hs.
+  destruct (ag_hstep (a, p) op) as [oa [a' p']].
+  destruct (go_hstep (proj a p, p) op) as [og sg'].
+  cbv beta iota zeta in Hs. cbn [fst snd] in *.
+  destruct Hs as [Hres Hrest]. split; [exact Hres|].
+  intros Hstop. destruct (Hrest Hstop) as (Hobs & -> & Hinv'). split; [exact Hobs|].
+  apply IH; assumption.
+Qed.
+
+Lemma inv_new : forall c s, oob_free c -> inv (ag_new c s) None.
+Proof. intros c s H. repeat split; simpl; auto; discriminate. Qed.
+
+Theorem genobj_equiv : forall c s h, oob_free c -> ok_history h ->
+  agree (ag_new c s, None) (go_new c s, None) h.
+Proof. intros c s h Hc Hh. apply (equiv_from h (ag_new c s) None); auto using inv_new. Qed.
+
+(* as long as the native object never reaches a stop state, the two traces
+   are equal as lists (what [agree] says, in the shape of the harness oracle) *)
+Fixpoint never_stops (sa : agen * option pend) (h : list hop) : bool :=
+  match h with
+  | [] => true
+  | op :: t => let '(oa, sa') := ag_hstep sa op in
+               negb (ag_stop oa (fst sa')) && never_stops sa' t
+  end.
+
+Lemma agree_traces : forall h sa sg, agree sa sg h -> never_stops sa h = true ->
+  Forall2 same_obs (ag_trace sa h) (go_trace sg h).
+Proof.
+  induction h as [|op t IH]; intros sa sg Hag Hns; [constructor|].
+  cbn [agree never_stops ag_trace go_trace] in *.
+  destruct (ag_hstep sa op) as [oa sa']. destruct (go_hstep sg op) as [og sg'].
+  apply andb_prop in Hns. destruct Hns as [Hstop Hns].
+  destruct Hag as [_ Hag]. destruct (ag_stop oa (fst sa')); [discriminate|].
+  destruct (Hag eq_refl) as [Hobs Hrest]. constructor; auto.
+Qed.
+
+Theorem genobj_equiv_traces : forall c s h, oob_free c -> ok_history h ->
+  never_stops (ag_new c s, None) h = true ->
+  Forall2 same_obs (ag_trace (ag_new c s, None) h) (go_trace (go_new c s, None) h).
+Proof. intros. apply agree_traces; auto using genobj_equiv. Qed.
+
+(* ---- a second consumer while the first one's awaitable is suspended ---- *)
+Lemma second_consumer : forall a g c, ag_run a = true -> frame_done (ag_fr a) = false ->
+  go_run g = true ->
+  ag_start a c = mkastep [] (ORaise (RuntimeError RtAgenRunning)) a None /\
+  go_start g c = mkgstep [] (ORaise (RuntimeError RtAgenRunning)) g None.
+Proof.
+  intros [fr run cl s] [grun_ m o gs] c Ha Hf Hg. simpl in *. subst.
+  unfold ag_start, go_start; simpl. rewrite Hf. destruct c; auto.
+Qed.
+
+(* -------------------------------------------- ayield from nested awaits *)
+Definition not_stopiter (i : input) : Prop := forall v, i <> Throw (StopIteration v).
+
+(* c is a yield node whose continuation returns what is sent / raises what is thrown *)
+Definition flat_at (d : val) (c : coro) : Prop :=
+  exists k1, c = Eff (EUser 0 d) (Susp d k1) /\
+             forall i, not_stopiter i -> eqv (k1 i) (resume_with Ret Raise i).
+
+Lemma await_flat : forall kd d c kr ke, flat_at d c ->
+  exists k1, await_ kd c kr ke = Eff (EUser 0 d) (Susp d k1) /\
+             forall i, not_stopiter i -> eqv (k1 i) (resume_with kr ke i).
+Proof.
+  intros kd d c kr ke (k1 & -> & Hk). simpl. eexists; split; [reflexivity|].
+  intros [v|e] Hi; simpl.
+  - eapply eqv_trans.
+    + apply await_cong; [apply (Hk (Send v)); intros w Hw; discriminate
+                        | intros; apply eqv_refl | intros; apply eqv_refl].
+    + simpl. apply eqv_refl.
+  - assert (He : eqv (k1 (Throw e)) (Raise e)) by (apply (Hk (Throw e)); exact Hi).
+    destruct e;
+      try (eapply eqv_trans;
+           [apply await_cong; [exact He | intros; apply eqv_refl | intros; apply eqv_refl]
+           | simpl; apply eqv_refl]).
+    + (* GeneratorExit: close() of the awaited frames, then GeneratorExit at the await *)
+      eapply eqv_trans.
+      * apply close_then_cong; [exact He | intros; apply eqv_refl].
+      * simpl. apply eqv_refl.
+    + exfalso. apply (Hi v). reflexivity.
+Qed.
+
+Lemma flat_yield : forall d, flat_at d (yield_ d Ret Raise).
+Proof. intros d. eexists; split; [reflexivity|]. intros; apply eqv_refl. Qed.
+
+Lemma flat_frames : forall n d, flat_at d (ayield_frames n d).
+Proof.
+  induction n as [|n IH]; intros d.
+  - change (ayield_frames 0 d) with (await_ KGen (yield_ d Ret Raise) Ret Raise).
+    unfold flat_at. apply (await_flat KGen d _ Ret Raise), flat_yield.
+  - change (ayield_frames (S n) d) with (await_ KCoro (ayield_frames n d) Ret Raise).
+    unfold flat_at. apply (await_flat KCoro d _ Ret Raise), IH.
+Qed.
+
+(* r = await g.ayield(d) issued under n nested coroutine frames, with the code
+   after it [kr] and the handlers around it [ke], IS the yield node of
+   `r = yield d` with a continuation bisimilar to the flat one for every input
+   except a thrown StopIteration (which oob()'s generator frame converts, PEP 479) *)
+Theorem nested_ayield : forall n d kr ke,
+  exists k1, await_ KCoro (ayield_frames n d) kr ke = Eff (EUser 0 d) (Susp d k1) /\
+             forall i, not_stopiter i -> eqv (k1 i) (resume_with kr ke i).
+Proof. intros. apply await_flat, flat_frames. Qed.
+
+(* ----------------------------------------------------------------- examples *)
+Ltac prove_free :=
+  repeat first [ assumption
+               | apply of_ret | apply of_eff | apply of_set
+               | apply of_raise; (reflexivity || assumption)
+               | apply of_get; intro
+               | apply of_susp; intros [?|?] ?; simpl in * ].
+
+(* v = yield 1; log v; w = await tok(11); yield w *)
+Definition ex_body : coro :=
+  yield_ (VInt 1) (fun r => Eff (ERecv r)
+     (await_ KGen (tok (VInt 11)) (fun v => yield_ v (fun _ => Ret VNone) Raise) Raise)) Raise.
+
+Lemma ex_body_free : oob_free ex_body.
+Proof. unfold ex_body, yield_, tok. simpl. prove_free. destruct e; simpl in *; prove_free. Qed.
+
+(* anext; asend 7 (suspends on the token); a second consumer's aclose ("already
+   running"); the token's answer 5 comes back as the second yielded value;
+   aclose; anext on the closed generator *)
+Definition ex_hist : list hop :=
+  [HStart (CSend VNone); HStart (CSend (VInt 7)); HStart CClose; HResume (Send (VInt 5));
+   HStart CClose; HStart (CSend VNone)].
+
+(* the hypotheses of [genobj_equiv_traces] are satisfiable by a non-trivial instance *)
+Example ex_equiv :
+  oob_free ex_body /\ ok_history ex_hist /\ never_stops (ag_new ex_body [], None) ex_hist = true /\
+  map ho_out (go_trace (go_new ex_body [], None) ex_hist) =
+    [Some (OReturn (VInt 1)); Some (OYield (VInt 11)); Some (ORaise (RuntimeError RtAgenRunning));
+     Some (OReturn (VInt 5)); Some (OReturn VNone); Some (ORaise StopAsyncIteration)] /\
+  map ho_events (go_trace (go_new ex_body [], None) ex_hist) = [[]; [ERecv (VInt 7)]; []; []; []; []].
+Proof. split; [exact ex_body_free|]. repeat split; reflexivity. Qed.
+
+(* Why a direct throw(GeneratorExit) into a suspended awaitable is outside the domain:
+   try: await tok(11) except GeneratorExit: pass  -- CPython throws GeneratorExit into the
+   body (which returns: StopAsyncIteration); asynkit's relay closes the body and re-raises *)
+Definition ex_ge_body : coro :=
+  await_ KGen (tok (VInt 11)) (fun _ => Ret VNone) (fun e => if is_genexit e then Ret VNone else Raise e).
+
+Example ex_throw_genexit_differs :
+  let h := [HStart (CSend VNone); HResume (Throw GeneratorExit)] in
+  map ho_out (ag_trace (ag_new ex_ge_body [], None) h) = [Some (OYield (VInt 11)); Some (ORaise StopAsyncIteration)] /\
+  map ho_out (go_trace (go_new ex_ge_body [], None) h) = [Some (OYield (VInt 11)); Some (ORaise GeneratorExit)].
+Proof. split; reflexivity. Qed.
+
+(* Why the comparison ends at the ill-formed native state (CPython 3.12.1 quirk):
+   try: yield 1 finally: await tok(11);  aclose() suspended in the finally block, E1 thrown in:
+   both raise E1, but CPython leaves ag_running set and answers "already running" for ever *)
+Definition ex_quirk_body : coro :=
+  yield_ (VInt 1) (fun _ => Ret VNone) (fun e => await_ KGen (tok (VInt 11)) (fun _ => Raise e) Raise).
+
+Example ex_quirk :
+  let h := [HStart (CSend VNone); HStart CClose; HResume (Throw (E 1)); HStart (CSend VNone)] in
+  map ho_out (ag_trace (ag_new ex_quirk_body [], None) h) =
+    [Some (OReturn (VInt 1)); Some (OYield (VInt 11)); Some (ORaise (E 1)); Some (ORaise (RuntimeError RtAgenRunning))] /\
+  map ho_running (ag_trace (ag_new ex_quirk_body [], None) h) = [false; true; true; true] /\
+  map ho_out (go_trace (go_new ex_quirk_body [], None) h) =
+    [Some (OReturn (VInt 1)); Some (OYield (VInt 11)); Some (ORaise (E 1)); Some (ORaise StopAsyncIteration)] /\
+  never_stops (ag_new ex_quirk_body [], None) h = false.
+Proof. repeat split; reflexivity. Qed.
+
+(* Why it ends at "ignored GeneratorExit": the native generator is then marked closed
+   although its frame is alive (a further aclose() raises StopAsyncIteration without
+   touching the body); GeneratorObject has no such flag and closes the body *)
+Definition ex_ign_body : coro :=
+  yield_ (VInt 1) (fun _ => Ret VNone) (fun e => yield_ (VInt 2) (fun _ => Ret VNone) Raise).
+
+Example ex_ignored :
+  let h := [HStart (CSend VNone); HStart CClose; HStart CClose] in
+  map ho_out (ag_trace (ag_new ex_ign_body [], None) h) =
+    [Some (OReturn (VInt 1)); Some (ORaise (RuntimeError RtIgnoredGenExit)); Some (ORaise StopAsyncIteration)] /\
+  map ho_out (go_trace (go_new ex_ign_body [], None) h) =
+    [Some (OReturn (VInt 1)); Some (ORaise (RuntimeError RtIgnoredGenExit)); Some (OReturn VNone)].
+Proof. split; reflexivity. Qed.
+
+(* Why athrow(StopIteration) is outside the domain: thrown into a created generator
+   CPython raises it as it is; asynkit's relay takes it for the coroutine's return *)
+Example ex_athrow_stopiteration_differs :
+  let h := [HStart (CThrow (StopIteration VNone))] in
+  map ho_out (ag_trace (ag_new ex_body [], None) h) = [Some (ORaise (StopIteration VNone))] /\
+  map ho_out (go_trace (go_new ex_body [], None) h) = [Some (ORaise StopAsyncIteration)].
+Proof. split; reflexivity. Qed.
+
+(* nested ayield, instance: depth 3 *)
+Example ex_nested : exists k1,
+  await_ KCoro (ayield_frames 3 (VInt 1)) Ret Raise = Eff (EUser 0 (VInt 1)) (Susp (VInt 1) k1) /\
+  eqv (k1 (Send (VInt 7))) (Ret (VInt 7)) /\ eqv (k1 (Throw GeneratorExit)) (Raise GeneratorExit).
+Proof.
+  destruct (nested_ayield 3 (VInt 1) Ret Raise) as (k1 & Heq & Hk).
+  exists k1. split; [exact Heq|]. split; [apply (Hk (Send (VInt 7)))|apply (Hk (Throw GeneratorExit))];
+    intros v Hv; discriminate.
+Qed.
